@@ -1491,8 +1491,8 @@ fn c15(ctx: &RunCtx) -> i32 {
         if i == 1 {
             return uds_smoke(seed);
         }
-        if i == 2 || i == 3 {
-            return endpoint_smoke(seed, i == 3);
+        if (2..=5).contains(&i) {
+            return endpoint_smoke(seed, i % 2 == 1, i >= 4);
         }
         if i % 10 == 9 {
             // whole-stack integrity on real client/server chains
@@ -1618,12 +1618,17 @@ fn uds_smoke(seed: u64) -> Outcome {
 /// The shipped endpoint constructors (`tcp::listen`/`connect`, `unix::listen`/`connect`) over the real
 /// loopback / a real socket file: both directions, including a 1 MiB body. An environment without
 /// loopback networking makes this sub-case a no-op (counted), never a verdict.
-fn endpoint_smoke(seed: u64, unix: bool) -> Outcome {
+fn endpoint_smoke(seed: u64, unix: bool, custom: bool) -> Outcome {
     use futures::{SinkExt, StreamExt};
     use tarpc::{ClientMessage, Response};
     type C = ClientMessage<String>;
     type R = Response<String>;
-    let name = if unix { "unix::listen/connect" } else { "tcp::listen/connect" };
+    let name = match (unix, custom) {
+        (true, false) => "unix::listen/connect",
+        (false, false) => "tcp::listen/connect",
+        (true, true) => "unix::listen/connect with a non-default framing configuration",
+        (false, true) => "tcp::listen/connect with a non-default framing configuration",
+    };
     let mut out = Outcome::default();
     out.desc = json!({"family": "S-codec", "case": format!("{name} smoke")});
     let rt = tokio::runtime::Builder::new_current_thread().enable_all().build().unwrap();
@@ -1677,7 +1682,13 @@ fn endpoint_smoke(seed: u64, unix: bool) -> Outcome {
                 Ok(l) => l,
                 Err(_) => return Ok(None),
             };
-            let c = tarpc::serde_transport::unix::connect(&path, tokio_serde::formats::Bincode::<R, C>::default).await?;
+            let mut conn = tarpc::serde_transport::unix::connect(&path, tokio_serde::formats::Bincode::<R, C>::default);
+            if custom {
+                // what `config_mut()` documents: the framing of every accepted / connected transport
+                l.config_mut().length_field_length(3).little_endian();
+                conn.config_mut().length_field_length(3).little_endian();
+            }
+            let c = conn.await?;
             let s = l.next().await.ok_or_else(|| std::io::Error::new(std::io::ErrorKind::Other, "listener ended"))??;
             exchange!(c, s)
         } else {
@@ -1686,7 +1697,12 @@ fn endpoint_smoke(seed: u64, unix: bool) -> Outcome {
                 Err(_) => return Ok(None),
             };
             let addr = l.local_addr();
-            let c = match tarpc::serde_transport::tcp::connect(addr, tokio_serde::formats::Json::<R, C>::default).await {
+            let mut conn = tarpc::serde_transport::tcp::connect(addr, tokio_serde::formats::Json::<R, C>::default);
+            if custom {
+                l.config_mut().length_field_length(3).little_endian();
+                conn.config_mut().length_field_length(3).little_endian();
+            }
+            let c = match conn.await {
                 Ok(c) => c,
                 Err(_) => return Ok(None),
             };
@@ -1727,12 +1743,12 @@ fn endpoint_smoke(seed: u64, unix: bool) -> Outcome {
                     }
                 }
             }
-            out.cell(if unix { "C15.unix-endpoints-smoke" } else { "C15.tcp-endpoints-smoke" });
+            out.cell(format!("C15.{}-endpoints-smoke{}", if unix { "unix" } else { "tcp" }, if custom { ".custom-framing" } else { "" }));
             out.nontrivial("C15");
             out.count("items_round_tripped", (reqs.len() + resps.len()) as u64);
         }
     }
-    out.sig = if unix { 0x0d6 } else { 0x0d7 };
+    out.sig = if unix { 0x0d6 } else { 0x0d7 } + if custom { 0x10 } else { 0 };
     out.trace = vec![format!("31 client messages and 31 responses (one 1 MiB body each way) over {name}")];
     out
 }
